@@ -4,6 +4,13 @@
 extern crate alloc;
 pub mod util;
 #[cfg(kani)]
+pub mod units;
+#[cfg(kani)]
+#[path = "gen/unit_table.rs"]
+pub mod gen_units;
+#[cfg(kani)]
+pub mod c08;
+#[cfg(kani)]
 pub mod c17;
 #[cfg(kani)]
 pub mod c01;
